@@ -255,6 +255,32 @@ fn read_battery(cf: &mut CompoundFile<MonFile>, shared: &crate::backend::Shared,
             let _ = s.stream_position();
         }
     }
+    // lookups *below* objects the walk has shown - also below streams, which have no
+    // children to look among (whatever their child field says)
+    for e in entries.iter().take(40) {
+        for leaf in ["x", "Foo", "\u{e9}"] {
+            let q = e.path().join(leaf);
+            api(shared);
+            let _ = cf.exists(&q);
+            let _ = cf.is_stream(&q);
+            let _ = cf.is_storage(&q);
+            let _ = cf.entry(&q);
+            check(shared, "lookup below an object")?;
+            api(shared);
+            if let Ok(it) = cf.read_storage(&q) {
+                let _ = it.take(1000).count();
+            }
+            if let Ok(it) = cf.walk_storage(&q) {
+                let _ = it.take(1000).count();
+            }
+            if let Ok(mut s) = cf.open_stream(&q) {
+                let mut b = [0u8; 64];
+                let _ = s.read(&mut b);
+            }
+            check(shared, "listing / opening below an object")?;
+            rep.count("lookups_below_listed_objects");
+        }
+    }
     for p in ["/", "", "/nope", "a/../..", "/a:b", "//", "/\u{1F600}", "/x/y/z/../../q"] {
         api(shared);
         let _ = cf.entry(p);
